@@ -66,7 +66,13 @@ DISC = {
     # ... or an enum listing all of its values
     "CatE": _dv("cat", "lives", more=("kitten",)), "DogE": _dv("dog", "barkVolume", more=("puppy",)),
 }
-FAMILIES = {"plain": ["Cat", "Dog", "Eel"], "rewritten": ["CatV2", "HTTPDog", "eel_fish"], "several_values_plain_string": ["CatS", "DogS", "Eel"],
+# ... or every variant takes its discriminator property from ONE shared enum schema ($ref PetKind)
+for _n, _v, _x, _req in (("CatR", "cat", "lives", True), ("DogR", "dog", "barkVolume", True), ("EelR", "eel", "volts", False)):
+    _t = _dv(_v, _x, name_required=_req)
+    _t[0]["properties"]["kind"] = {"$ref": "#/components/schemas/PetKind"}
+    DISC[_n] = _t
+SHARED = {"PetKind": {"type": "string", "enum": ["cat", "dog", "eel"]}}
+FAMILIES = {"shared_enum_schema": ["CatR", "DogR", "EelR"], "plain": ["Cat", "Dog", "Eel"], "rewritten": ["CatV2", "HTTPDog", "eel_fish"], "several_values_plain_string": ["CatS", "DogS", "Eel"],
             "several_values_enum": ["CatE", "DogE", "Eel"]}
 
 
@@ -85,6 +91,7 @@ def accepts(variant: str, payload) -> bool:
 def build_doc(unions: list[dict]) -> dict:
     schemas = {k: v[0] for k, v in POOL.items() if v[1] is not None}
     schemas.update({k: v[0] for k, v in DISC.items()})
+    schemas.update(SHARED)
     for u in unions:
         members = []
         for v in u["variants"]:
